@@ -20,7 +20,11 @@ abbrev fromRot := Generated.fromRotTables
 /-- enum tables and the rate-of-turn tables (to_turn: ITU function; from_turn ∘ to_turn: identity on
 the 256 decoded values) — kernel evaluation over the tables read from the source -/
 theorem tables_ok : TablesOk env E = true := by decide +kernel
+set_option maxRecDepth 1000000 in
 theorem rot_tables_ok : RotTablesOk env E fromRot = true := by decide +kernel
+
+/-- every enum converter maps into the raw range of its field and is the identity on its image -/
+theorem enum_rt_ok : EnumRTOk env E = true := by decide +kernel
 
 /-- all 35 field tables satisfy the side conditions of the re-encoding theorem (distinct names,
 matching decode/encode converters per kind, one-bit booleans, only the last field unaligned) -/
@@ -79,6 +83,7 @@ example : OnBoundary Generated.T_MessageType1 168 :=
 
 #print axioms tables_ok
 #print axioms rot_tables_ok
+#print axioms enum_rt_ok
 #print axioms tables_rt
 #print axioms C08_idempotent
 #print axioms C08_bit_exact
